@@ -64,7 +64,8 @@ func handleLeader(context *layoutContext, line *bo.LineBox, containingBlock cont
 		line.Width = cbWidth
 
 		// Add text boxes into the leader box
-		numberOfLeaders := int(line.Width.V()) / int(textBox.Width.V())
+		// (a float division: the text may be narrower than a pixel)
+		numberOfLeaders := int(line.Width.V() / textBox.Width.V())
 		positionX := line.PositionX + line.Width.V()
 		var children []Box
 		for i := 0; i < numberOfLeaders; i++ {
